@@ -61,6 +61,17 @@ CHECKS = {
               "comes first and matches the indices used. Last-ulp behaviour of libm is outside the claim."),
         note=TRUST + "; mpmath.iv encloses elementary functions; path conditions dropped (superset of inputs)",
         ref="DESIGN.md section 4-C17"),
+    "C16": dict(
+        engine="E5 absint + coordinate typing",
+        technique="affine-weight check of abstract-interpretation results (partitions, Node) + coordinate-use typing scan (algorithms)",
+        text=("Static, sound in real arithmetic: every child bound/centre produced by any make_children is a weight-one affine "
+              "combination of the split cell's own same-axis bounds (and of draws between such), and no split decision looks at "
+              "a coordinate; in PyXAB/algos coordinate-bearing values are only stored, returned, forwarded, indexed, iterated, "
+              "drawn between, or compared with a coordinate of the same axis - so no decision depends on absolute coordinates. "
+              "DOO's default delta is the one frozen exception (checked to be translation-invariant of degree 2 and installed "
+              "only as the default). Bit-exactness for dyadic maps is not separately argued."),
+        note=TRUST + "; np.random.uniform(a,b)=a+(b-a)U; coordinate sources enumerated in the rule",
+        ref="DESIGN.md section 4-C16"),
 }
 
 NOT_YET = "checker under construction in this round (see DESIGN.md section 0 for the clause it will decide)"
